@@ -165,6 +165,23 @@ pub struct BadEvolution {
     pub a: u8,
 }
 
+/// a field name removed and later re-added (outside the legal histories: such a type cannot read its own data, whose
+/// header names `x` as removed). Data from the version in between must be rejected, not completed with the default.
+#[derive(BinaryCodec)]
+#[evolution(FieldRemoved("x"), FieldAdded("x", 7777u32))]
+pub struct ReusedName {
+    pub a: u32,
+    pub x: u32,
+}
+
+/// the same with an optional field: the format assigns None
+#[derive(BinaryCodec)]
+#[evolution(FieldRemoved("x"), FieldAdded("x", Some(7777u32)))]
+pub struct ReusedNameOpt {
+    pub a: u32,
+    pub x: Option<u32>,
+}
+
 macro_rules! rec_model {
     ($t:ident { $($f:ident : $ft:ty),+ }) => {
         impl Model for $t {
@@ -185,6 +202,8 @@ rec_model!(DedupNoNames { s: DeduplicatedString, o: Option<DeduplicatedString>, 
 rec_model!(DedupV0 { a: DeduplicatedString, b: String, c: DeduplicatedString });
 rec_model!(MaxSteps { a: u8, b: String });
 rec_model!(BadEvolution { a: u8 });
+rec_model!(ReusedName { a: u32, x: u32 });
+rec_model!(ReusedNameOpt { a: u32, x: Option<u32> });
 
 
 // ---- the Scala golden data set (desert_macro/golden/dataset1.bin): same declarations as the repository's golden test ----
@@ -499,6 +518,24 @@ pub fn register(reg: &mut Registry) {
         "BadEvolution",
         Ty::Record(Arc::new(RecordSchema { name: "BadEvolution".into(), fields: vec![f::<u8>("a", false)], steps: vec![Step::MadeOptional("nope".into())] })),
     );
+    refmodel::register(
+        "ReusedName",
+        Ty::Record(Arc::new(RecordSchema {
+            name: "ReusedName".into(),
+            fields: vec![f::<u32>("a", false), sbase::fs::<u32>("x", false, false, Some(Val::U(7777)))],
+            steps: vec![Step::Removed("x".into()), Step::Added("x".into())],
+        })),
+    );
+    refmodel::register(
+        "ReusedNameOpt",
+        Ty::Record(Arc::new(RecordSchema {
+            name: "ReusedNameOpt".into(),
+            fields: vec![f::<u32>("a", false), sbase::fs::<Option<u32>>("x", true, false, Some(Val::some(Val::U(7777))))],
+            steps: vec![Step::Removed("x".into()), Step::Added("x".into())],
+        })),
+    );
+    reg.add_hostile_only::<ReusedName>("ReusedName");
+    reg.add_hostile_only::<ReusedNameOpt>("ReusedNameOpt");
     refmodel::register("BigEnum", Ty::Enum(Arc::new(schema_bigenum())));
     refmodel::register("BigEnumSorted", Ty::Enum(Arc::new(schema_bigenumsorted())));
     reg.add_tagged::<BigEnum>("BigEnum", &["special:limits", "enum"]);
